@@ -12,6 +12,7 @@ from sympy import (
     Float,
     Le,
     Mul,
+    Number,
     Or,
     Piecewise,
     Pow,
@@ -161,8 +162,8 @@ def _get_singularity(expr, V, U_offset, exp_function):
         assert m is None or m[Z_wildcard] != 0
         return m is not None and \
             (sp == m[SP_wildcard] or
-             (isinstance(sp, (Float, float)) and
-             isinstance(m[SP_wildcard], (Float, float)) and
+             (isinstance(sp, (Number, float)) and
+             isinstance(m[SP_wildcard], (Number, float)) and
              isclose(m[SP_wildcard], sp)))
 
     # find all fractions and sperate numerator and denominator
